@@ -437,6 +437,37 @@ let run_trace toks =
       String.concat " " (List.sort compare effs)
   | _ -> failwith "trace"
 
+(* ---- archive level clone: open + fetch + decompress + verify + write ---- *)
+let run_aclone toks =
+  match toks with
+  | [ b; hh; tab ] ->
+      let f = bytes_of_hex b in
+      let htab0 =
+        if hh = "-" then []
+        else begin
+          let arr = Array.of_list f in
+          let dsize = ref 0 in
+          for i = 13 downto 6 do dsize := (!dsize * 256) + int_of_n arr.(i) done;
+          let offs = 14 + !dsize + 8 in
+          [ (List.filteri (fun i _ -> i < offs) f, bytes_of_hex hh) ]
+        end in
+      (* table entries: payload=hash(payload)=decompressed-or-!=hash(decompressed) *)
+      let entries =
+        if tab = "-" then []
+        else List.map (fun e -> match String.split_on_char '=' e with
+            | [ p; hp; d; hd ] -> (bytes_of_hex p, bytes_of_hex hp, (if d = "!" then None else Some (bytes_of_hex d)), hd)
+            | _ -> failwith "aclone tab") (split_on ';' tab) in
+      let htab = htab0 @ List.concat_map (fun (p, hp, d, hd) ->
+          (p, hp) :: (match d with Some x -> [ (x, bytes_of_hex hd) ] | None -> [])) entries in
+      let decompf (_alg : n) (p : n list) : n list option =
+        match List.find_opt (fun (k, _, _, _) -> k = p) entries with Some (_, _, d, _) -> d | None -> None in
+      (match open_and_clone (hash_oracle htab) decompf f with
+       | Ok out -> "OK " ^ hex_of_bytes out
+       | Err _ -> "ERR"
+       | Panic _ -> "PANIC"
+       | OutOfFuel -> "FUEL")
+  | _ -> failwith "aclone"
+
 let dispatch (line : string) : string =
   match split_on ' ' line with
   | "hash" :: r -> run_hash r
@@ -451,6 +482,7 @@ let dispatch (line : string) : string =
   | "compress" :: r -> run_compress r
   | "compresscli" :: r -> run_compresscli r
   | "cmd" :: r -> run_cmd r
+  | "aclone" :: r -> run_aclone r
   | "trace" :: r -> run_trace r
   | "http" :: r -> run_http r
   | "httpat" :: r -> run_httpat r
